@@ -3099,7 +3099,7 @@ def lib_set(ev, a, k, n, mod):
     items = ev.iterate(a[0], n, mod) if a else []
     out, seen = [], []
     for i in items:
-        kx = hkey(i)
+        kx = skey(i)            # members that are expressions: the same expression is the same member
         if kx not in seen:
             seen.append(kx)
             out.append(i)
